@@ -4,8 +4,12 @@ package props
 import (
 	"crypto/rsa"
 	"crypto/x509"
+	"encoding/base64"
 	"fmt"
+	"net/url"
+	"strings"
 	"time"
+	_ "time/tzdata"
 
 	"verifsim/core"
 	"verifsim/world"
@@ -62,6 +66,45 @@ var locPool = []*time.Location{
 	time.FixedZone("plus0530", 5*3600+1800),
 	time.FixedZone("minus0800", -8*3600),
 	time.FixedZone("plus1345", 13*3600+45*60),
+	mustLoc("America/New_York"), // zones with daylight-saving transitions (tzdata is embedded)
+	mustLoc("Europe/Berlin"),
+	mustLoc("Australia/Lord_Howe"),
+}
+
+func mustLoc(name string) *time.Location {
+	l, err := time.LoadLocation(name)
+	if err != nil {
+		panic(err)
+	}
+	return l
+}
+
+// nextTransition returns the first instant after from at which loc's UTC offset changes
+// (zero time if none within 400 days).
+func nextTransition(loc *time.Location, from time.Time) time.Time {
+	if loc == nil || loc == time.UTC || !strings.Contains(loc.String(), "/") {
+		return time.Time{} // UTC and fixed zones have no transitions
+	}
+	_, off := from.In(loc).Zone()
+	t := from
+	for i := 0; i < 400*24; i++ {
+		n := t.Add(time.Hour)
+		if _, o := n.In(loc).Zone(); o != off {
+			// binary search inside the hour
+			lo, hi := t, n
+			for hi.Sub(lo) > time.Second {
+				mid := lo.Add(hi.Sub(lo) / 2)
+				if _, om := mid.In(loc).Zone(); om != off {
+					hi = mid
+				} else {
+					lo = mid
+				}
+			}
+			return hi.Truncate(time.Second)
+		}
+		t = n
+	}
+	return time.Time{}
 }
 
 // DrawEpoch places simulated time between 2001 and 2089, never near real time, so any
@@ -172,3 +215,7 @@ func rsaPub(c *x509.Certificate) (*rsa.PublicKey, bool) {
 	p, ok := c.PublicKey.(*rsa.PublicKey)
 	return p, ok
 }
+
+func decodeB64(s string) ([]byte, error) { return base64.StdEncoding.DecodeString(s) }
+
+func urlUnescape(s string) (string, error) { return url.QueryUnescape(s) }
